@@ -155,8 +155,7 @@ def _run_closed(inst, res):
         res['status'] = INCONCLUSIVE
         res['notes'].append(ex.status)
         return
-    res['obligations'] += 1
-    res['discharged'] += int(ex.exhaustive())
+    require_exhaustive(res, ex)
     import time
     for p in ex.paths:
         if p.kind == 'exc':
@@ -306,8 +305,7 @@ def _run_seq(inst, res):
         res['status'] = INCONCLUSIVE
         res['notes'].append(ex.status)
         return
-    res['obligations'] += 1
-    res['discharged'] += int(ex.exhaustive())
+    require_exhaustive(res, ex)
     want_all = set(_completions(t, ns, {}))
     if t == 'UNORDERED_NOREPL' and ap:
         pass  # same predicate on original indices; pre-removal only prunes dead ends
@@ -483,8 +481,7 @@ def _run_dsg(inst, res):
         res['status'] = INCONCLUSIVE
         res['notes'].append(ex.status)
         return
-    res['obligations'] += 1
-    res['discharged'] += int(ex.exhaustive())
+    require_exhaustive(res, ex)
     want = _dsg_oracle(t, k, n, placement)
     got_feasible = set()
     n_hist = 0
